@@ -24,6 +24,12 @@ CHECKS = {
  "C14": ("recorded event log of harness-controlled decode completions (gate hook) checked offline against a sequential model; direct assertions on decoder output; Miri data-race/UB detection with 16 scheduler seeds (thorough)",
          "Schedules: for k<=4 images in flight all k! completion orders x all 2^k poll placements x 12 geometry classes (5304 schedules) are executed with real threads held in the gate; every poll runs under a 20 s no-block limit; the log of what is on screen after each step is checked against 'fold arrivals in order over the longest finished prefix'. Payloads: seeded sixel payloads (20k quick / 2M thorough) must decode to width*height*4 bytes consistent with a declared raster.",
          "Decode durations are not enumerated (order and poll placement determine the shared state). Images are identified by colour/position/size.", "DESIGN.md §4 C14"),
+ "C16": ("lock-step execution of the real Palette against a Vec reference model over seeded operation histories (runtime assertion after every insert), export->import differential for 5 file formats, exhaustive 64^3 six-bit codec enumeration",
+         "Histories of up to 40 insert/set/push/resize/get operations on palettes of 0..=300 colours are run on the real Palette and a reference vector; after every insert the stability conditions of the property are asserted. Palettes of 0..=256 colours with awkward title/author/description texts are exported and re-imported in every format. All 262144 six-bit colours and the ADF EGA codec are enumerated.",
+         "Growing resize from fewer than 16 colours is not modelled.", "DESIGN.md §4 C16"),
+ "C17": ("round-trip differential monitors on the real encoders/decoders (PSF2, raw, DCS through the real parser, XBin/ADF/IDF/IcyDraw embedding) with bit-exact glyph comparison, plus an independent TDF reference reader for the writer side",
+         "Every built-in font page 0..=42 and every SAUCE font through all 10 paths, and seeded fonts of every height 1..=32 with 256/512 glyphs of arbitrary bytes. TheDraw fonts of all three types, 0..=94 glyphs, bundles up to 34 fonts are written, read by an independent reader written from the file layout, and re-read by the engine.",
+         "Fonts are embedded under a non-default name. Raw data that starts with a PSF magic number is a known finding (format sniffing).", "DESIGN.md §4 C17"),
  "C18": ("exhaustive enumeration of the codec domains against round-trip oracles (runtime assertion monitor)",
          "Complete enumeration of the finite domain stated in the property (256 bytes x 3 modes, all expressible attribute tuples, 256 CP437 + 128 ATASCII codes, 63 typed characters x 5 converters), each executed on the real codecs under the panic monitor; exhaustive, so the verdict covers every input of the quantifier.",
          "Trusts the harness's definition of 'expressible in a mode' (image of from_u8) and of the displayed foreground (bold folding).", "DESIGN.md §4 C18"),
